@@ -21,9 +21,9 @@ CHECKS = {
     'C04': ('forwards() == embed(mask()) over an exhaustive product, plus every wrapper program of a finite grammar declared with forwards_to_* really executed on every call shape.', T_E3, 'section 4 C04'),
     'C05': ('Every program of a finite forwarding grammar (shapes x argument shapes x contexts x routes x taints) written to real files, discovered by sigtools.signature and executed on every non-colliding call shape.', T_E3, 'section 4 C05'),
     'C06': ('Same program space; discovered signature and provenance compared with the explicit declaration computed from the generator ground truth through the public algebra; metamorphic groups must agree.', T_E3, 'section 4 C06'),
-    'C07': ('Every callable of the importable corpus (stdlib + installed packages + sigtools) x three retrieval modes compared with inspect, plus a grammar of adversarial sources; sphinx hook on every dotted name.', T_E3, 'section 4 C07'),
+    'C07': ('Every callable of the importable corpus (stdlib + installed packages + sigtools) x three retrieval modes compared with inspect, plus a grammar of adversarial sources, sourced forwarders under every shape of module globals, recursive / ill-bound / unhashable callables, arbitrary and non-evaluating annotations; sphinx hook on every dotted name.', T_E3, 'section 4 C07'),
     'C08': ('Provenance invariant evaluated in every state and on every transition of a breadth-first search over the real algebra operations, and on every discovery result of the program grammar.', T_E2, 'section 4 C08'),
-    'C09': ('Every name-aligned role-consistent pair / role-consistent triple x call alphabet for precision; every signature for the identity, neutral-element, round-trip and fold laws.', T_E1, 'section 4 C09'),
+    'C09': ('Every name-aligned position-consistent pair / triple x call alphabet for precision; every signature for the identity, neutral-element, round-trip and fold laws.', T_E1, 'section 4 C09'),
     'C10': ('Every result of merge/embed/forwards/partial over the universe extended with distinct default and annotation values, checked against the stated metadata rules.', T_E1, 'section 4 C10'),
     'C11': ('Every operation x annotated subset x eager/postponed compile mode x shared/per-function globals configuration; source_value()/evaluated() compared with the defining context.', T_E1, 'section 4 C11'),
     'C12': ('Every function of the universe x every selection of names for every decorator form, decorated for real and called on every call shape with distinguishable values, compared with an independent expected-signature model bound through inspect.', T_E1, 'section 4 C12'),
